@@ -72,3 +72,8 @@ CLAIMS["C08"] = {
     "note": "The strict parser is the trusted base; values with backslashes are checked for well-formedness only, as the property states.",
     "technique": "runtime monitoring: strict exposition-format parser + family-structure checker + injection probe over renders of hostile inputs",
 }
+CLAIMS["C09"] = {
+    "text": "Exploration: tens of thousands of writer lifetimes (quick; millions thorough) with limits placed at message length +-few bytes, both framing modes, prefixes, global tags, extreme values and write/drain sequences including rejected metrics followed by accepted ones; every emitted byte is decoded by an independent parser and every accounting identity is checked per write and per lifetime; panics inside the writer are caught and reported as violations (overflow checks on).",
+    "note": "Driven through the cfg-guarded public wrapper around the crate-private PayloadWriter; the drain wrapper does exactly what the forwarder does per flush.",
+    "technique": "runtime monitoring: independent DogStatsD decoder + accounting identities over generated writer lifetimes; panic capture",
+}
